@@ -89,6 +89,7 @@ def check_C17(ctx):
         r = MONITORS["c17_node"](sx.loads(line), sx.loads(o))
         if r:
             ctx.violation("c17_node", line, 0, r[0], r[1], r[2])
+    ctx.corpus(["d6_float_range.py"])
     ctx.cov["exhaustive"] = True
     ctx.cov["grid"] = "old bounds: full (L,U) grid of step 1/16 (17x17) x alpha in {1,15/16,7/8,3/4,5/8,9/16}; new bounds random incl. out-of-range proposals"
     # engine-level range / has_contradiction monitors are added by checks_prop when present
